@@ -474,7 +474,8 @@ func BuildSidecarOutboundVirtualHosts(node *model.Proxy, push *model.PushContext
 	for _, virtualHostWrapper := range virtualHostWrappers {
 		for _, svc := range virtualHostWrapper.Services {
 			name := util.DomainName(string(svc.Hostname), virtualHostWrapper.Port)
-			knownFQDN.InsertAll(name, string(svc.Hostname))
+			// lower case, as vhdomains: domains are matched case-insensitively
+			knownFQDN.InsertAll(strings.ToLower(name), strings.ToLower(string(svc.Hostname)))
 		}
 	}
 
@@ -521,7 +522,7 @@ func dedupeDomains(domains []string, vhdomains sets.String, expandedHosts []stri
 		// the real "foo.com"
 		// This works by providing a list of domains that were added as expanding the DNS domain as part of expandedHosts,
 		// and a list of known unexpanded FQDNs to compare against
-		if slices.Contains(expandedHosts, d) && knownFQDNs.Contains(d) { // O(n) search, but n is at most 10
+		if slices.Contains(expandedHosts, d) && knownFQDNs.Contains(strings.ToLower(d)) { // O(n) search, but n is at most 10
 			continue
 		}
 		temp = append(temp, d)
